@@ -1,2 +1,275 @@
 import NSG.Model.Coord
-/-! # C01 (theorems under construction) -/
+/-! # C01 — every agent message is answered exactly once (in-flight accounting)
+
+`answers d outs`: outputs addressed to connection `d` (a reply, a reply lost in a failed write, or
+the closing of the connection).  `pend p`: 1 iff the connection's request is parked at a barrier.
+Conservation: for every delivery and every connection,
+  answers + pending afterwards = pending before + (1 if this delivery consumed a message / the end of d).
+Hence along any history: nothing unsolicited, never two answers, and whatever is consumed and not
+yet answered is parked - at exactly one barrier. -/
+namespace NSG.Coord
+open NSG NSG.Defender
+
+def Phase.pend : Phase → Nat
+  | .parked _ => 1
+  | _ => 0
+
+def Out.to : Out → Option Nat
+  | .reply d _ | .lost d _ | .closed d => some d
+  | .refused _ => none
+
+def answers (d : Nat) (outs : List Out) : Nat := (outs.filter (fun o => o.to = some d)).length
+
+theorem answers_append (d : Nat) (a b : List Out) : answers d (a ++ b) = answers d a + answers d b := by
+  simp [answers, List.filter_append]
+
+theorem answers_cons (d : Nat) (o : Out) (l : List Out) : answers d (o :: l) = (if o.to = some d then 1 else 0) + answers d l := by
+  simp only [answers, List.filter_cons]
+  by_cases h : o.to = some d
+  · simp [h]; omega
+  · simp [h]
+
+/-- conservation for transformers that only answer parked requests -/
+def Cons (s : St) (r : St × List Out) : Prop := ∀ d, answers d r.2 + (r.1.conn d).pend = (s.conn d).pend
+
+theorem emit_law (s : St) (c : Nat) (r : Reply) (d : Nat) :
+    answers d (emit s c r).2 + ((emit s c r).1.conn d).pend = if d = c then 1 else (s.conn d).pend := by
+  unfold emit
+  by_cases hd : d = c
+  · subst hd; split <;> simp [answers, Out.to, St.setConn, Phase.pend]
+  · have : ¬ c = d := fun h => hd h.symm
+    split <;> simp [answers, Out.to, St.setConn, Phase.pend, hd, this]
+
+theorem cons_emit_parked (s : St) (c : Nat) (r : Reply) (p : Park) (hc : s.conn c = .parked p) : Cons s (emit s c r) := by
+  intro d; rw [emit_law]; split
+  · rename_i h; subst h; simp [hc, Phase.pend]
+  · rfl
+
+theorem cons_finishGame (s : St) (c : Nat) (a : Act) (p : Park) (hc : s.conn c = .parked p) : Cons s (finishGame s c a) := by
+  intro d
+  have := cons_emit_parked (s.updAgent c (recordStep a)) c { code := .ok, obs := some (obsOf (s.agent c)) } p hc d
+  exact this
+
+theorem cons_finishReset (S : Settings) (s : St) (c : Nat) (t : Bool) (p : Park) (hc : s.conn c = .parked p) : Cons s (finishReset S s c t) := by
+  intro d
+  exact cons_emit_parked (s.updAgent c restartTraj) c _ p hc d
+
+theorem Cons.step {s : St} {r1 : St × List Out} {r2 : St × List Out} (h1 : Cons s r1) (h2 : Cons r1.1 r2) :
+    Cons s (r2.1, r1.2 ++ r2.2) := by
+  intro d; have := h1 d; have := h2 d; simp only [answers_append]; omega
+
+theorem cons_releaseEnd (s : St) (l : List Nat) : Cons s (releaseEnd s l) := by
+  induction l generalizing s with
+  | nil => intro d; simp [releaseEnd, answers]
+  | cons c cs ih =>
+    simp only [releaseEnd]
+    split
+    · rename_i a hc
+      exact Cons.step (cons_finishGame s c a _ hc) (ih _)
+    · exact ih s
+
+theorem cons_releaseStart (S : Settings) (s : St) (l : List Nat) : Cons s (releaseStart S s l) := by
+  induction l generalizing s with
+  | nil => intro d; simp [releaseStart, answers]
+  | cons c cs ih =>
+    simp only [releaseStart]
+    split
+    · rename_i hc; exact Cons.step (cons_emit_parked s c _ _ hc) (ih _)
+    · rename_i t hc; exact Cons.step (cons_finishReset S s c t _ hc) (ih _)
+    · exact ih s
+
+theorem pend_resetTask (S : Settings) (s : St) (o : Oracle) (d : Nat) : ((resetTask S s o).conn d).pend = (s.conn d).pend := by
+  simp only [resetTask]; split <;> simp_all [Phase.pend]
+
+theorem cons_settle (S : Settings) (s : St) (o : Oracle) (e r : Bool) : Cons s (settle S s o e r) := by
+  unfold settle
+  have h1 : Cons s (if e then releaseEnd (rewardTask S s) s.ids else (s, [])) := by
+    cases e
+    · intro d; simp [answers]
+    · exact cons_releaseEnd (rewardTask S s) s.ids
+  generalize (if e then releaseEnd (rewardTask S s) s.ids else (s, [])) = p1 at h1
+  obtain ⟨s1, o1⟩ := p1
+  simp only at h1 ⊢
+  have h2 : ∀ d, ((if r then resetTask S s1 o else s1).conn d).pend = (s1.conn d).pend := by
+    intro d; cases r
+    · rfl
+    · exact pend_resetTask S s1 o d
+  generalize (if r then resetTask S s1 o else s1) = s2 at h2
+  have h3 : Cons s2 (if s2.startEv then releaseStart S s2 s2.ids else (s2, [])) := by
+    split
+    · exact cons_releaseStart S s2 _
+    · intro d; simp [answers]
+  generalize (if s2.startEv then releaseStart S s2 s2.ids else (s2, [])) = p3 at h3
+  obtain ⟨s3, o3⟩ := p3
+  intro d
+  have a1 := h1 d; have a2 := h2 d; have a3 := h3 d
+  simp only [answers_append] at *
+  omega
+
+/-- what a delivery consumes from connection `d`: one message read by a reading handler, or the end
+of the connection (EOF / error seen by a reading handler, the quit after a failed write) -/
+def consumed (s : St) (e : Ev) (d : Nat) : Nat :=
+  match e with
+  | .msg c _ _ => if c = d ∧ s.conn c = .reading then 1 else 0
+  | .leave c _ => if c = d ∧ (s.conn c = .reading ∨ s.conn c = .dead) then 1 else 0
+  | _ => 0
+
+theorem leave_law (S : Settings) (s : St) (c : Nat) (o : Oracle) (hp : (s.conn c).pend = 0) (d : Nat) :
+    let r := settle S (closeConn (removeAgent s c).1 c) o (removeAgent s c).2.1 (removeAgent s c).2.2
+    answers d (.closed c :: r.2) + (r.1.conn d).pend = (s.conn d).pend + (if c = d then 1 else 0) := by
+  intro r
+  have hc := cons_settle S (closeConn (removeAgent s c).1 c) o (removeAgent s c).2.1 (removeAgent s c).2.2 d
+  have hconn : ((closeConn (removeAgent s c).1 c).conn d).pend = if c = d then 0 else (s.conn d).pend := by
+    have : (removeAgent s c).1.conn = s.conn := by unfold removeAgent; split <;> rfl
+    simp only [closeConn, St.setConn, this]
+    by_cases h : d = c
+    · subst h; simp [Phase.pend]
+    · have : ¬ c = d := fun e => h e.symm
+      simp [h, this]
+  rw [answers_cons]
+  simp only [Out.to]
+  by_cases h : c = d
+  · subst h; simp only [if_true] at hconn ⊢; simp only [r]; omega
+  · have : ¬ (some c = some d) := by simpa using h
+    simp only [this, h, if_false] at hconn ⊢; simp only [r]; omega
+
+/-- **Conservation** for every event and every connection. -/
+theorem C01_conservation (S : Settings) (s : St) (e : Ev) (d : Nat) :
+    answers d (deliver S s e).2 + ((deliver S s e).1.conn d).pend = (s.conn d).pend + consumed s e d := by
+  cases e with
+  | connect c =>
+    simp only [deliver, consumed]
+    split
+    · rename_i hc
+      split
+      · by_cases h : d = c <;> simp [answers, Out.to, St.setConn, h, hc, Phase.pend]
+      · by_cases h : d = c <;> simp [answers, St.setConn, h, hc, Phase.pend]
+    · simp [answers]
+  | armWriteFault c => simp [deliver, consumed, answers]
+  | leave c o =>
+    simp only [deliver, consumed]
+    split
+    · rename_i hc; have := leave_law S s c o (by simp [hc, Phase.pend]) d; simp only [hc, true_or, and_true] at this ⊢; exact this
+    · rename_i hc; have := leave_law S s c o (by simp [hc, Phase.pend]) d; simp only [hc, or_true, and_true] at this ⊢; exact this
+    · rename_i h1 h2
+      have : ¬ (s.conn c = .reading ∨ s.conn c = .dead) := by
+        intro h; rcases h with h | h
+        · exact h1 h
+        · exact h2 h
+      simp [answers, this]
+  | msg c m o =>
+    simp only [deliver, consumed]
+    split
+    case h_2 hne =>
+      have : ¬ (s.conn c = .reading) := fun h => hne h
+      simp [answers, this]
+    case h_1 hc =>
+      simp only [hc, and_true]
+      have hp : (s.conn c).pend = 0 := by simp [hc, Phase.pend]
+      -- a handler that answers directly
+      have direct : ∀ r : Reply, answers d (emit s c r).2 + ((emit s c r).1.conn d).pend = (s.conn d).pend + (if c = d then 1 else 0) := by
+        intro r; rw [emit_law]
+        by_cases h : d = c
+        · subst h; simp [hp]
+        · have : ¬ c = d := fun e => h e.symm
+          simp [h, this]
+      -- a handler that parks its request and lets the background tasks run
+      have parked : ∀ (st : St) (p : Park) (e r : Bool), st.conn = s.conn →
+          answers d (settle S (st.setConn c (.parked p)) o e r).2 + ((settle S (st.setConn c (.parked p)) o e r).1.conn d).pend
+            = (s.conn d).pend + (if c = d then 1 else 0) := by
+        intro st p e r hst
+        have := cons_settle S (st.setConn c (.parked p)) o e r d
+        rw [this]
+        by_cases h : d = c
+        · subst h; rw [hp]; simp [St.setConn, Phase.pend]
+        · have : ¬ c = d := fun e => h e.symm
+          simp [St.setConn, h, this, hst]
+      cases m with
+      | bad => exact direct _
+      | quit => exact leave_law S s c o hp d
+      | join n r =>
+        simp only [handle]
+        split
+        · exact direct _
+        · cases r with
+          | none => exact direct _
+          | some r =>
+            simp only
+            split <;> exact parked _ _ _ _ rfl
+      | reset t =>
+        simp only [handle]
+        split
+        · exact direct _
+        · exact parked _ _ _ _ rfl
+      | game a =>
+        simp only [handle]
+        split
+        · exact direct _
+        · split
+          · exact direct _
+          · split
+            · exact direct _
+            · split
+              · exact parked _ _ _ _ rfl
+              · simp only [finishGame]
+                rw [emit_law]
+                by_cases h : d = c
+                · subst h; simp [hp]
+                · have : ¬ c = d := fun e => h e.symm
+                  simp [h, this, St.updAgent]
+
+end NSG.Coord
+
+namespace NSG.Coord
+
+/-- total consumption of connection `d` along a history -/
+def consumedRun (S : Settings) : St → List Ev → Nat → Nat
+  | _, [], _ => 0
+  | s, e :: es, d => consumed s e d + consumedRun S (deliver S s e).1 es d
+
+/-- **Along every history**: (answers so far) + (1 if a request of `d` is parked now) = (messages /
+connection ends consumed from `d`).  So every consumed message is answered exactly once or is the
+single one still parked; nothing is ever sent that was not asked for. -/
+theorem C01_history (S : Settings) (s : St) (es : List Ev) (d : Nat) :
+    answers d (run S s es).2 + ((run S s es).1.conn d).pend = (s.conn d).pend + consumedRun S s es d := by
+  induction es generalizing s with
+  | nil => simp [run, consumedRun, answers]
+  | cons e es ih =>
+    simp only [run, consumedRun, answers_append]
+    have h1 := C01_conservation S s e d
+    have h2 := ih (deliver S s e).1
+    omega
+
+theorem C01_exactly_once (S : Settings) (es : List Ev) (d : Nat) :
+    answers d (run S init es).2 = consumedRun S init es d - ((run S init es).1.conn d).pend ∧
+    ((run S init es).1.conn d).pend ≤ consumedRun S init es d := by
+  have := C01_history S init es d
+  have h0 : (init.conn d).pend = 0 := rfl
+  rw [h0] at this
+  constructor <;> omega
+
+/-- nothing unsolicited: a delivery that consumes nothing from `d`, while `d` has nothing parked,
+sends nothing to `d` -/
+theorem C01_no_unsolicited (S : Settings) (s : St) (e : Ev) (d : Nat)
+    (hp : (s.conn d).pend = 0) (hc : consumed s e d = 0) : answers d (deliver S s e).2 = 0 := by
+  have := C01_conservation S s e d; omega
+
+/-- never two answers: one delivery sends at most one output to a connection -/
+theorem C01_at_most_one (S : Settings) (s : St) (e : Ev) (d : Nat) : answers d (deliver S s e).2 ≤ 1 := by
+  have := C01_conservation S s e d
+  have h1 : (s.conn d).pend ≤ 1 := by cases s.conn d <;> simp [Phase.pend]
+  have h2 : consumed s e d ≤ 1 := by
+    cases e <;> simp only [consumed] <;> (try split) <;> omega
+  have h3 : (s.conn d).pend + consumed s e d ≤ 1 := by
+    cases e with
+    | msg c m o => simp only [consumed]; split
+                   · rename_i h; obtain ⟨rfl, hr⟩ := h; simp [hr, Phase.pend]
+                   · omega
+    | leave c o => simp only [consumed]; split
+                   · rename_i h; obtain ⟨rfl, hr⟩ := h; rcases hr with hr | hr <;> simp [hr, Phase.pend]
+                   · omega
+    | connect c => simp [consumed]; exact h1
+    | armWriteFault c => simp [consumed]; exact h1
+  omega
+
+end NSG.Coord
